@@ -437,6 +437,56 @@ theorem inv_wfail (p : Prog) (s : Sys) (w n : Nat) (h : Inv p s) : Inv p (step p
     · exact h.finished_ok
   · exact h
 
+/-- the cleanup after a failure: the temp file is removed, the writer gives up; nothing else is touched -/
+theorem inv_giveup (p : Prog) (s : Sys) (w : Nat) (h : Inv p s) : Inv p (step p s (.giveup w)) := by
+  simp only [step]
+  have key : ∀ (t i : Nat), Owns s w i →
+      Inv p { s with dir := upd s.dir (.tmp t) none, wst := upd s.wst w .dead } := by
+    intro t i hown_w
+    have hown : ∀ w' j, Owns { s with dir := upd s.dir (.tmp t) none,
+                                      wst := upd s.wst w .dead } w' j → Owns s w' j ∧ w' ≠ w := by
+      intro w' j ho
+      simp only [Owns] at ho ⊢
+      by_cases hww : w' = w
+      · subst hww; simp at ho
+      · exact ⟨by simpa [upd, hww] using ho, hww⟩
+    have hkey : ∀ k, upd s.dir (.tmp t) none (.key k) = s.dir (.key k) := by
+      intro k; simp [upd]
+    constructor
+    · intro k j hk
+      simp only [hkey] at hk
+      obtain ⟨w0, h1, h2, h3, h4, h5, h6⟩ := h.key_sealed k j hk
+      have hw0 : w0 ≠ w := by
+        intro e; subst e
+        rcases hown_w with ⟨t', off', hw⟩ | ⟨t', hw⟩ <;> simp [hw] at h4
+      exact ⟨w0, h1, h2, h3, by simp [upd, hw0, h4],
+        fun w' ho => h5 w' (hown w' j ho).1, h6⟩
+    · intro k hk
+      simp only [hkey] at hk
+      exact h.cur_none k hk
+    · intro w' j ho; exact h.own_lt w' j (hown w' j ho).1
+    · intro w1 w2 j h1 h2; exact h.own_inj w1 w2 j (hown _ _ h1).1 (hown _ _ h2).1
+    · intro w' t' j off' hw'
+      by_cases hww : w' = w
+      · subst hww; simp at hw'
+      · simp [upd, hww] at hw'
+        exact h.opened_prefix w' t' j off' hw'
+    · intro w' t' j hw'
+      by_cases hww : w' = w
+      · subst hww; simp at hw'
+      · simp [upd, hww] at hw'
+        exact h.closed_full w' t' j hw'
+    · intro r j buf snap hr
+      obtain ⟨h1, hlt, w0, h2⟩ := h.reading_ok r j buf snap hr
+      exact ⟨fun w' ho => h1 w' (hown w' j ho).1, hlt, w0, h2⟩
+    · exact h.finished_ok
+  split
+  · rename_i t i off hw
+    exact key t i (Or.inl ⟨t, off, hw⟩)
+  · rename_i t i hw
+    exact key t i (Or.inr ⟨t, hw⟩)
+  · exact h
+
 theorem inv_step (p : Prog) (s : Sys) (e : Event) (h : Inv p s) : Inv p (step p s e) := by
   cases e with
   | create w t => exact inv_create p s w t h
@@ -444,6 +494,7 @@ theorem inv_step (p : Prog) (s : Sys) (e : Event) (h : Inv p s) : Inv p (step p 
   | wfail w n => exact inv_wfail p s w n h
   | close w => exact inv_close p s w h
   | rename w => exact inv_rename p s w h
+  | giveup w => exact inv_giveup p s w h
   | crash w => exact inv_crash p s w h
   | ropen r => exact inv_ropen p s r h
   | rread r n => exact inv_rread p s r n h
